@@ -41,18 +41,21 @@ func init() {
 			{Func: gp + "internal/codegen.VC02K", Discover: 3, Reach: []string{"c02k.accepted"}},
 			{Func: gp + "internal/zzverif.VC02Shapes", Discover: 4, Reach: []string{"c02.ea.accepted"}},
 			{Func: gp + "internal/zzverif.VC02Carriers", Discover: 3, Reach: []string{"c02.ea.accepted"}},
+			{Func: gp + "internal/zzverif.VC02Label", Discover: 4, Reach: []string{"c02l.accepted"}},
 		}},
 		Thorough: tierSpec{Harnesses: []harnessSpec{
 			{Func: gp + "internal/codegen.VC02K", Discover: 3, Reach: []string{"c02k.accepted"}},
 			{Func: gp + "internal/zzverif.VC02Shapes", Discover: 5, Params: map[string]int{"allregs": 1}, Reach: []string{"c02.ea.accepted"}},
 			{Func: gp + "internal/zzverif.VC02Carriers", Discover: 4, Params: map[string]int{"allregs": 1}, Reach: []string{"c02.ea.accepted"}},
+			{Func: gp + "internal/zzverif.VC02Label", Discover: 4, Reach: []string{"c02l.accepted"}},
 		}},
 		Bounds: []string{
 			"kernel level: calculateModRM on every 32-bit base (8 or none) x index (7 or none) x scale {1,2,4,8} and every 16-bit shape, both modes, reg field 0..7, displacement over all of int64",
 			"source level: shapes written as text ([base+index*scale+d], [base-m]) through both PEG parsers' structure, pass 1, codegen; displacement literals of 1..10 digits (quick: digit classes 1,3,5,10); carriers MOV load/store/store-imm, ALU load/store/imm, NOT, SHL, PUSH, POP, LGDT, accumulator forms",
 			"quick tier sweeps each of base / index / scale against fixed values of the others and uses one register width; thorough tier takes the full cross product and widths 8/16/32",
+			"label addresses: [lbl] with lbl defined before or after the statement, 13 carriers x widths 8/16/32 x both modes, origin a solver variable over 0..0xff00 (16-bit) / 0..0x7fff0000 (32-bit)",
 		},
-		OutsideBounds: []string{"segment overrides", "label displacements", "displacements written as hex literals or expressions (C06)", "16-bit addressing registers in 32-bit mode beyond the listed known finding"},
+		OutsideBounds: []string{"segment overrides", "labels combined with registers or arithmetic inside the brackets ([SI+lbl], [lbl+2]: rejected with a diagnostic by the pinned tree)", "displacements written as hex literals or expressions (C06)", "16-bit addressing registers in 32-bit mode beyond the listed known finding"},
 	}
 }
 
